@@ -16,7 +16,7 @@ from props.c03 import Batch
 from props.c13 import time_limit
 from props.common import load_def
 
-RULE = ("random valid multitape tables (1-3 tapes, deterministic or 1-2 alternatives, 1-3 working + 1-2 final states, 2-4 tape "
+RULE = ("random valid multitape tables (1-3 tapes, deterministic or 1-2 alternatives - in one table out of ten one entry has an empty list of alternatives -, 1-3 working + 1-2 final states, 2-4 tape "
         "symbols - in about one table in seven they are control characters and punctuation such as newline, tab, backslash, "
         "and the characters '^' and '_' that the extended tape uses as markers by default - five direction profiles incl. left-heavy and zigzag; every third table is run again with another symbol as its blank; tables whose alternatives differ in the target state "
         "only, with small negative integers as state names) on '' and random words, budget 300 "
@@ -107,7 +107,7 @@ def check(ctx, batch, md, word, B, tag):
     i_ys = [[st(q), ext_codes(e, sy, mk), p] for q, e, p in s_raw]
     nk, sk = kind_of(n_out), kind_of(s_out)
     left, right = boundary_moves(md, n_cfgs)
-    det = all(len(alts) == 1 for row in md["table"].values() for alts in row.values())
+    det = all(len(alts) <= 1 for row in md["table"].values() for alts in row.values())
     item = (17, 1, enc.tree([T.enc_mntm(md, st, sy), B, sy.word(word)]))
     canon = enc.tree(T.enc_mntm(md, st, sy))
     where = ("a head moves left from the leftmost cell of its tape" if left else "no left-boundary move in the native run")
@@ -157,6 +157,8 @@ def check(ctx, batch, md, word, B, tag):
             ctx.tally("right_boundary_move")
         ctx.tally("tapes_%d" % md["k"])
         ctx.tally("deterministic" if det else "nondeterministic")
+        if any(md["table"].get(cc[0], {}).get(tuple(t[1] for t in cc[1])) == [] for cc in map(T.canon_mcfg, n_cfgs)):
+            ctx.tally("native_visited_entry_without_alternative")
         ctx.case((canon, word), nontrivial=nk != "limit" and len(n_items) >= 2 and (left or right),
                  validated=nk != "limit",
                  sample={"tapes": md["k"], "table": repr(md["table"]), "word": word, "native": nk, "simulation": sk,
@@ -221,6 +223,14 @@ HAND = [
          table={"q": {("a", ".", "."): [("q", (("a", "R"), ("a", "R"), (".", "N")))],
                       ("b", ".", "."): [("q", (("b", "R"), (".", "N"), ("b", "R")))],
                       (".", ".", "."): [("f", ((".", "N"), (".", "N"), (".", "N")))]}}),
+    # entries with an EMPTY list of alternatives (the constructor accepts them): no transition, in both runs.  One tape: stuck
+    # on the blank after the input; two tapes: one branch of a guess runs into such an entry, the other one accepts
+    dict(states=["q", "f"], finals=["f"], input_symbols="a", tape_symbols=".a", blank=".", initial="q", k=1, profile="hand",
+         table={"q": {("a",): [("q", (("a", "R"),))], (".",): []}}),
+    dict(states=["q", "r", "s", "f"], finals=["f"], input_symbols="a", tape_symbols=".a", blank=".", initial="q", k=2, profile="hand",
+         table={"q": {("a", "."): [("r", (("a", "R"), ("a", "R"))), ("s", (("a", "R"), ("a", "L")))], (".", "."): []},
+                "r": {("a", "."): [], (".", "."): [("f", ((".", "N"), (".", "N")))]},
+                "s": {("a", "."): [("f", (("a", "N"), (".", "N")))], (".", "."): []}}),
 ]
 
 
@@ -236,7 +246,7 @@ def run(ctx):
     n = ctx.n(170, 2500)
     for i in range(n):
         k = rng.choice([1, 2, 2, 3])
-        md = T.rand_table(rng, k=k, nondet=rng.random() < 0.5)
+        md = T.rand_table(rng, k=k, nondet=rng.random() < 0.5, empty=None)
         for w in T.rand_words(rng, md, 4, maxlen=4):
             if any(c not in md["tape_symbols"] for c in w):
                 # a character outside the tape alphabet is outside the model's symbol type: the two verdicts of the
@@ -259,7 +269,7 @@ def run(ctx):
         rng.shuffle(head)            # -1 and -2 are both working states (one of them the initial state)
         rng.shuffle(tail)
         names = head + tail
-        md = T.rand_table(rng, k=rng.choice([1, 1, 2]), nondet=True, names=names, twin=True, nasty=False)
+        md = T.rand_table(rng, k=rng.choice([1, 1, 2]), nondet=True, names=names, twin=True, nasty=False, empty=None)
         for w in T.rand_words(rng, md, 3, maxlen=4):
             w = "".join(c for c in w if c in md["tape_symbols"])
             check(ctx, batch, md, w, B, "twin_branches")
